@@ -21,6 +21,8 @@ def insert_stores(repo, intensity):
 
 
 def run(chk, repo, tier):
+    from .common import no_hidden_state
+    no_hidden_state(chk, repo, 'C07')
     chk.clause('C07-a', 'intensity = |coherent field|^2: reduce before modulus; the two insert branches differ only by abs(.**2)', 3)
     chk.clause('C07-b', 'accumulation adds weight*value into out and nothing else; Wavefront.insert forwards weight and returns out', 3)
     chk.clause('C07-c', 'phasor exponent is +2*pi*i*opd/wavelength (dimensionless)', 4)
